@@ -282,7 +282,27 @@ func exec(t *testing.T, pa any) (out core.Outcome) {
 	out.Trace = drv.Trace
 	out.NonTrivial = drv.Switches > 0
 	out.ProbeN("context-switches", drv.Switches)
-	out.ProbeN("lock-waits", disk.LockBlocked)
+	// Writers meet at <ref>.lock (O_EXCL) since /repo d0aa523: every successful creation of the lock file ends in
+	// exactly one rename or removal of it, so the surplus of creations is the number of times a writer found the
+	// reference locked by someone else and had to wait. (flock waits, counted by the disk, remain for packed-refs.)
+	{
+		creates, ends := 0, 0
+		for _, line := range drv.Trace {
+			f := strings.Fields(line)
+			if len(f) == 4 && strings.HasSuffix(f[3], ".lock") {
+				switch f[2] {
+				case "create":
+					creates++
+				case "rename", "remove":
+					ends++
+				}
+			}
+		}
+		if creates > ends {
+			out.ProbeN("lock-waits", creates-ends)
+		}
+		out.ProbeN("lock-waits", disk.LockBlocked)
+	}
 	if panicked != nil {
 		out.Inconclusive = "bubble-panic"
 		if os.Getenv("VERIF_DEBUG") != "" {
